@@ -1,6 +1,8 @@
 (* C03  Only users with effective write permission can add a message to a topic.
-   Theorems only, about the topic model Sys/Topic.v (one group topic; the self/search
-   and system topics are outside this model, see DESIGN.md section 7). *)
+   Theorems only, about the topic model Sys/Topic.v (one group topic) and the lifecycle
+   model Sys/TopicLife.v around it (deletion window, suspension of accounts with the full test
+   of hub.topicsStateForUser over every topic category, peer-to-peer topics, me/fnd, sys with
+   its subscribers); see DESIGN.md section 5/C03. *)
 From Coq Require Import ZArith NArith List Bool.
 From Tinode Require Import Base.Util Pure.Acs Sys.Topic Sys.TopicTac Sys.TopicFrame Sys.TopicNum Sys.TopicOut Sys.TopicNumThm Sys.TopicPub Sys.TopicMarks Sys.TopicMeta Sys.TopicCoh Sys.TopicLife Sys.TopicLifeProofs.
 Import ListNotations.
